@@ -22,6 +22,8 @@ func gen(tier string, r *lib.Rand, emit func(string)) {
 	for _, s := range acclib.Rejections {
 		emit("load " + hex(s))
 	}
+	// non-ASCII look-alikes and invalid UTF-8 in identifier / keyword / operator / digit / white-space positions
+	acclib.UnicodeCases(func(src string) { emit("loadx " + hex(src) + " parse") })
 	// name resolution order: self-reference, use before definition, redefinition using the first definition,
 	// alias cycles, and their legal look-alikes; the intended verdict travels with the case
 	acclib.NameOrderCases(func(t *ast.Chain, verdict string) {
